@@ -41,6 +41,7 @@ func init() {
 			{ID: "C04.20", Desc: "the nominated field values are read from the request's header map (store side and match side)", Run: func(c *Ctx) { ruleSelectingValuesFromRequest(c, "C04.20") }, MinSites: 2},
 			{ID: "C04.21", Desc: "the entry read and the position handed on use the matcher's result as index into the matched list", Run: func(c *Ctx) { ruleLookupPosition(c, "C04.21") }, MinSites: 2},
 			{ID: "C04.22", Desc: "the value yielded for a nominated name does not survive from the previous name (an absent field is recorded as absent)", Run: func(c *Ctx) { ruleResolvedValuePerName(c, "C04.22") }, MinSites: 1},
+			{ID: "C04.23", Desc: "the matcher compares the request's value with the value recorded in the reference (which does not depend on the request)", Run: func(c *Ctx) { ruleMatcherComparesStoredWithRequest(c, "C04.23") }, MinSites: 1},
 		},
 	})
 }
